@@ -53,7 +53,8 @@ func init() {
 }
 
 type c16model struct {
-	tokenAware bool // the session uses a token-aware policy over the keyspace ks1 (replication factor 1)
+	downSeen   map[*fakenode.Node]bool // down nodes whose state has been verified once since they went down
+	tokenAware bool                    // the session uses a token-aware policy over the keyspace ks1 (replication factor 1)
 	cl         *fakenode.Cluster
 	mu         sync.Mutex // dup, extra: read by the nodes' goroutines
 	down       map[*fakenode.Node]bool
@@ -259,7 +260,9 @@ func c16verify(sess *gocql.Session, m *c16model, pol gocql.HostSelectionPolicy) 
 	for id, n := range want {
 		p, ok := pools[id]
 		if m.down[n] {
-			if ok && len(p.Conns) > 0 {
+			// judged when the node has just been reported down ("... until it is connected again": a node that is
+			// reachable may legitimately be connected to again later, by whatever makes the driver try)
+			if ok && len(p.Conns) > 0 && !m.downSeen[n] {
 				add("pool:down-node-has-connections", "node %s is down but its pool holds %d connections", id, len(p.Conns))
 			}
 			continue
@@ -912,6 +915,17 @@ func c16direct(c *runner.Ctx, i int) {
 			}
 		}
 		c.Add("consistency_checks", 1)
+		if m.downSeen == nil {
+			m.downSeen = map[*fakenode.Node]bool{}
+		}
+		for n := range m.downSeen {
+			if !m.down[n] {
+				delete(m.downSeen, n)
+			}
+		}
+		for n := range m.down {
+			m.downSeen[n] = true
+		}
 		if len(probs) > 0 {
 			wit := map[string]interface{}{"history": append([]string{}, hist...), "all_problems": fmt.Sprint(probs)}
 			last := desc
